@@ -54,7 +54,19 @@ class Monitor:
         gaps = set()
         ca = res.get_atom("CA") if res.has_atom("CA") else None
         for lab, r in (("next", next_res), ("prev", prev_res)):
-            if r is not None and ca is not None and r.has_atom("CA"):
+            if r is None:
+                continue
+            # when both atoms of the peptide bond exist, the code's own documented criterion decides (C-N distance
+            # against PEPTIDE_DIST, measured here from the coordinates); otherwise the CA-CA distance
+            c_at = (res if lab == "next" else r).get_atom("C") if (res if lab == "next" else r).has_atom("C") else None
+            n_at = (r if lab == "next" else res).get_atom("N") if (r if lab == "next" else res).has_atom("N") else None
+            if c_at is not None and n_at is not None and not getattr(c_at, "added", False) and not getattr(n_at, "added", False):
+                from pdb2pqr.config import PEPTIDE_DIST as _PD
+
+                if ((c_at.x - n_at.x) ** 2 + (c_at.y - n_at.y) ** 2 + (c_at.z - n_at.z) ** 2) ** 0.5 > _PD:
+                    gaps.add(lab)
+                continue
+            if ca is not None and r.has_atom("CA"):
                 o = r.get_atom("CA")
                 if ((ca.x - o.x) ** 2 + (ca.y - o.y) ** 2 + (ca.z - o.z) ** 2) ** 0.5 > 4.05:
                     gaps.add(lab)
